@@ -340,6 +340,12 @@ class lodict(odict):
         """
         return super(lodict, self).get(key.lower(), default)
 
+    def pop(self, key, *default):
+        """
+        Make key lowercase then pop
+        """
+        return super(lodict, self).pop(key.lower(), *default)
+
     def setdefault(self, key, default=None, kind=None):
         """
         convert key to lower and then
